@@ -317,6 +317,8 @@ impl Parser {
     /// Status: standard
     pub(crate) fn scroll_left(&mut self, buf: &mut Buffer, layer: usize) {
         let num = if let Some(number) = self.parsed_numbers.first() { *number } else { 1 };
+        // after 'width' steps the scrolling region is blank
+        let num = num.min(buf.terminal_state.get_width());
         (0..num).for_each(|_| buf.scroll_left(layer));
     }
 
@@ -338,6 +340,7 @@ impl Parser {
     /// Status: standard
     pub(crate) fn scroll_right(&mut self, buf: &mut Buffer, layer: usize) {
         let num = if let Some(number) = self.parsed_numbers.first() { *number } else { 1 };
+        let num = num.min(buf.terminal_state.get_width());
         (0..num).for_each(|_| buf.scroll_right(layer));
     }
 
